@@ -195,3 +195,25 @@ Proof.
   eapply nval_eq_trans; [|apply (fold_add_shift l x (NFin 0 1)); auto].
   apply fold_add_congr; auto using nval_add_fin. apply nval_add_comm.
 Qed.
+
+(* ---- deep-equal ---- *)
+Lemma deep_equal_refl : forall l, deep_equal l l = true.
+Proof. induction l as [|x r IH]; cbn; auto. rewrite dv_same_refl. exact IH. Qed.
+Lemma deep_equal_sym : forall l1 l2, deep_equal l1 l2 = deep_equal l2 l1.
+Proof.
+  induction l1 as [|x r IH]; intros [|y r2]; cbn; auto. rewrite dv_same_sym, IH. reflexivity.
+Qed.
+Lemma deep_equal_length : forall l1 l2, deep_equal l1 l2 = true -> length l1 = length l2.
+Proof.
+  induction l1 as [|x r IH]; intros [|y r2] H; cbn in *; try discriminate; auto.
+  apply andb_true_iff in H. destruct H as (_ & H). rewrite (IH r2 H). reflexivity.
+Qed.
+Lemma deep_equal_nth : forall l1 l2, deep_equal l1 l2 = true ->
+  forall k x y, nth_error l1 k = Some x -> nth_error l2 k = Some y -> dv_same x y = true.
+Proof.
+  induction l1 as [|a r IH]; intros [|b r2] H k x y H1 H2; cbn in H; try discriminate.
+  - destruct k; discriminate.
+  - apply andb_true_iff in H. destruct H as (Hab & H). destruct k as [|k]; cbn in H1, H2.
+    + injection H1 as <-. injection H2 as <-. exact Hab.
+    + apply (IH r2 H k x y H1 H2).
+Qed.
